@@ -219,7 +219,19 @@ pub fn gen_case(r: &mut Prng) -> Case {
         let t = if r.chance(1, 2) {
             let n = r.below(decls.len());
             let ar = decls[n].arity;
-            tygen::Ty::Adt(n, (0..ar).map(|_| tygen::gen_ty(r, &decls, decls.len(), None, 0, 2)).collect())
+            // a Pair as type argument now and then: `List<a>` fields become association lists
+            tygen::Ty::Adt(
+                n,
+                (0..ar)
+                    .map(|_| {
+                        if r.chance(1, 4) {
+                            tygen::Ty::Pair(Box::new(tygen::gen_ty(r, &decls, decls.len(), None, 0, 1)), Box::new(tygen::gen_ty(r, &decls, decls.len(), None, 0, 1)))
+                        } else {
+                            tygen::gen_ty(r, &decls, decls.len(), None, 0, 2)
+                        }
+                    })
+                    .collect(),
+            )
         } else {
             tygen::gen_ty(r, &decls, decls.len(), None, 0, 3)
         };
@@ -423,6 +435,38 @@ pub fn corpus() -> Vec<Case> {
                 },
             ],
             params: vec![Ty::Adt(1, vec![])],
+        },
+        // a generic `List<a>` field instantiated at a Pair: the monomorphised field IS an association
+        // list (Map in Data) although the declaration never mentions Pair (seeded change C12-3)
+        Case {
+            decls: vec![
+                DataType { arity: 1, ctors: vec![Ctor { tag: None, fields: vec![Ty::Bytes, Ty::List(Box::new(Ty::Var(0)))], labelled: true }], record: true, as_list: false },
+                DataType { arity: 2, ctors: vec![Ctor { tag: None, fields: vec![Ty::Option(Box::new(Ty::List(Box::new(Ty::Var(1))))), Ty::Var(0)], labelled: false }], record: false, as_list: false },
+            ],
+            params: vec![
+                Ty::Adt(0, vec![Ty::Pair(Box::new(Ty::Int), Box::new(Ty::Bytes))]),
+                Ty::Adt(1, vec![Ty::Int, Ty::Pair(Box::new(Ty::Bytes), Box::new(Ty::Adt(0, vec![Ty::Pair(Box::new(Ty::Int), Box::new(Ty::Int))])))]),
+                Ty::Adt(0, vec![Ty::Int]),
+            ],
+        },
+        // association lists with COMPOUND keys: tuple, enum, Option (what is checked inside a key)
+        Case {
+            decls: vec![DataType {
+                arity: 0,
+                ctors: vec![
+                    Ctor { tag: None, fields: vec![], labelled: false },
+                    Ctor { tag: None, fields: vec![], labelled: false },
+                    Ctor { tag: None, fields: vec![Ty::Int], labelled: false },
+                ],
+                record: false,
+                as_list: false,
+            }],
+            params: vec![
+                Ty::List(Box::new(Ty::Pair(Box::new(Ty::Tuple(vec![Ty::Int, Ty::Int])), Box::new(Ty::Int)))),
+                Ty::List(Box::new(Ty::Pair(Box::new(Ty::Adt(0, vec![])), Box::new(Ty::Int)))),
+                Ty::List(Box::new(Ty::Pair(Box::new(Ty::Option(Box::new(Ty::Int))), Box::new(Ty::Bytes)))),
+                Ty::List(Box::new(Ty::Pair(Box::new(Ty::List(Box::new(Ty::Bytes))), Box::new(Ty::Bool)))),
+            ],
         },
         // @list record, maps, pairs, tuples
         Case {
